@@ -149,6 +149,7 @@ def run(ctx):
                 if st2 != 'ok' or not np.array_equal(np.asarray(y.vertices, dtype=np.float32), e['verts']) or not np.array_equal(np.asarray(y.faces), e['faces']):
                     ctx.violation('navis mesh reader does not reproduce what was written', desc, y if st2 != 'ok' else None)
         batch(ctx, navis, rng, tmp)
+        parallel_order(ctx, navis, rng, tmp)
         containers(ctx, navis, rng, tmp)
     finally:
         shutil.rmtree(tmp, ignore_errors=True)
@@ -228,6 +229,47 @@ def batch(ctx, navis, rng, tmp):
             st, res = guarded(navis.read_precomputed, z, datatype='skeleton', parallel=False, info=False)
             if st != 'ok' or sorted(int(n.id) for n in navis.NeuronList(res)) != [100 + j for j in range(k)]:
                 ctx.violation('zip archive does not return one neuron per file', desc, res if st != 'ok' else None)
+            # fmt patterns: named fields, typed fields and IGNORED fields ({}) - files named <name>_<tag>_<id>
+            df_ = os.path.join(tmp, 'fmt%d' % ci)
+            os.makedirs(df_)
+            want_attr = {}
+            for j, n_ in enumerate(nl):
+                src_ = os.path.join(d, str(100 + j))
+                nm_ = 'cell%s_v%d_%d' % ('ABCDEF'[j], j + 1, 500 + j)
+                shutil.copy(src_, os.path.join(df_, nm_))
+                want_attr[500 + j] = 'cell%s' % 'ABCDEF'[j]
+            for pattern, conv in (('{name}_{}_{id}', str), ('{name}_{}_{id:int}', int), ('{name}_v{}_{id:int}', int)):
+                st, res = guarded(navis.read_precomputed, df_, datatype='skeleton', fmt=pattern, parallel=False, info=False)
+                dd = dict(desc, fmt=pattern, files=sorted(os.listdir(df_)))
+                ctx.count('fmt:' + pattern)
+                if st != 'ok':
+                    ctx.violation('read_precomputed raised for a documented fmt pattern', dd, res)
+                    continue
+                got_attr = {conv(n.id) if conv is int else n.id: n.name for n in navis.NeuronList(res)}
+                exp_attr = {conv(i_) if conv is int else str(i_): v_ for i_, v_ in want_attr.items()}
+                if got_attr != exp_attr:
+                    ctx.violation('name/id are not parsed from the file name as the fmt pattern prescribes', dd, dict(got={str(k_): v_ for k_, v_ in got_attr.items()}, want={str(k_): v_ for k_, v_ in exp_attr.items()}))
+
+
+def parallel_order(ctx, navis, rng, tmp):
+    """a real process pool: results come back in file order even when the first file takes far longer than the rest"""
+    d = os.path.join(tmp, 'par')
+    os.makedirs(d)
+    big = F.mk_neuron(F.gen_forest(rng, 30000, 30001, roots=1, lattice=False, zero_edges=False, shape='caterpillar'), nid=300, name='big')
+    small = [F.mk_neuron(F.gen_forest(rng, 3, 6, roots=1, lattice=True, zero_edges=False), nid=301 + j, name='s%d' % j) for j in range(7)]
+    navis.write_precomputed(navis.NeuronList([big] + small), d)
+    want = [300 + j for j in range(8)]
+    for rep in range(ctx.n(2, 6)):
+        st, res = guarded(navis.read_precomputed, d, datatype='skeleton', parallel=2, info=False)
+        ctx.case(('parallel-order', rep), nontrivial=True)
+        ctx.count('batch:parallel-pool')
+        if st != 'ok':
+            ctx.violation('parallel batch read raised', dict(files=want), res)
+            return
+        got = [int(n.id) for n in navis.NeuronList(res)]
+        if got != want:
+            ctx.violation('parallel batch read does not return the neurons in (sorted) file order', dict(files=want), dict(got=got))
+            return
 
 
 def containers(ctx, navis, rng, tmp):
